@@ -2,6 +2,14 @@
 """Regenerates MANIFEST.json from the table below (kept in one place so that it stays valid)."""
 import json, sys
 CHECKS = {
+ "C16": dict(
+   text="DLEQ proofs (zk/dleq, the proof system of the verifiable OPRF modes) run over an abstract group whose scalars are SMT reals: for every key, randomness, generator and batch (1 and 2 elements, all exponents symbolic) the honest proof verifies - the verifier's recomputed commitments equal the prover's as polynomial identities and the challenge is recomputed from the same transcript (hash, hash-to-scalar and element encoding as uninterpreted functions).",
+   note="Completeness only; rejection of tampered proofs holds modulo hash collisions and is not claimed; OPRF blinding, qndleq, Schnorr and OT not yet covered; characteristic-0 model of the scalar field (identities with the same non-zero denominators transfer to every field).",
+   ref="§4 C16"),
+ "C17": dict(
+   text="Shamir/Feldman secret sharing (secretsharing + math/polynomial real generic code) over an abstract field (SMT reals, z3 nlsat): for thresholds t=1,2 (3 thorough), every secret, every coefficient vector and every choice of distinct non-zero share identifiers (all symbolic), any t+1 shares recover exactly the secret, t or fewer are refused, every dealt share verifies against the commitment, a share with altered value, a zero identifier or a commitment of the wrong length is refused.",
+   note="Abstract field of characteristic 0; threshold RSA not yet covered; element/scalar encodings not modelled (areAllDifferent is replaced by pairwise inequality).",
+   ref="§4 C17"),
  "C01": dict(
    text="ML-KEM-512/768/1024 and Kyber-512/768/1024 decapsulation decided to be exactly the Fujisaki-Okamoto transform of FIPS 203 Alg. 18 / Kyber r3 Alg. 9 for EVERY ciphertext (all ciphertext bytes symbolic), incl. the implicit-rejection branch, the constant-time compare over all bytes and the conditional copy; encaps-then-decaps returns the secret for every seed under the K-PKE correctness axiom.",
    note="Glue level: K-PKE Enc/Dec and the Keccak permutation are uninterpreted functions (the sponge code above the permutation is real); hybrids, X-Wing, Frodo and HPKE KEMs not yet covered; counterexamples are model-level (not natively replayable).",
